@@ -180,6 +180,10 @@ template <class G> std::vector<Op> opsFor(const Obj<G> &sh, const std::string &c
     return ops;
 }
 
+template <class G> struct LoaderOf;
+template <class L> struct LoaderOf<LabeledDirectedGraph<L>> { template <class... A> using T = LabeledDirectedGraph<A...>; };
+template <class L> struct LoaderOf<LabeledUndirectedGraph<L>> { template <class... A> using T = LabeledUndirectedGraph<A...>; };
+
 // ---- large mode
 struct Digest {
     unsigned long long h = 1469598103934665603ull;
@@ -313,8 +317,14 @@ template <class G> std::vector<Op> opsLarge(const Obj<G> &sh, const std::string 
                                std::ifstream ft(t, std::ios::binary), fb(b, std::ios::binary);
                                std::string st((std::istreambuf_iterator<char>(ft)), std::istreambuf_iterator<char>());
                                std::string sb((std::istreambuf_iterator<char>(fb)), std::istreambuf_iterator<char>());
+                               // ... and each thread loads its own files back (loaders running side by side)
+                               G hb = io::loadBinaryEdgeList<LoaderOf<G>::template T, L>(b);
+                               auto ht = io::loadTextEdgeList<LoaderOf<G>::template T, L>(t);
+                               hb.resize(g.getSize());
+                               ht.first.resize(g.getSize());
+                               bool same = (hb == g) && (ht.first == g || !std::is_same<L, NoLabel>::value);
                                return std::to_string(hashStr(st)) + ":" + std::to_string(st.size()) + "|" +
-                                      std::to_string(hashStr(sb)) + ":" + std::to_string(sb.size());
+                                      std::to_string(hashStr(sb)) + ":" + std::to_string(sb.size()) + (same ? "|loaded" : "|LOAD DIFFERS");
                            }});
         }
     }
